@@ -115,6 +115,11 @@ func SameOutputMasking(ref, got string, slack int64, refRoot, gotRoot string) (b
 	if d < 0 {
 		d = -d
 	}
+	// the writer's object order (and with it the size of compressed object streams) depends on Go map
+	// iteration order: two complete outputs of the same operation differ by up to ~0.5 % in size
+	if rel := int64(len(rb)) / 100; rel > slack {
+		slack = rel
+	}
 	if d > slack {
 		return false, fmt.Sprintf("size %d, reference run %d", len(gb), len(rb))
 	}
